@@ -37,7 +37,8 @@ Definition chk_sort (c : sort_case) : bool :=
   Nat.eqb (length flat) (match mx with None => n | Some m => Nat.min m n end).
 
 (* MOASHA sequence: rf, max_t, initial brackets, priority table, events
-   (bracket index, trial, cur_iter, metrics (already signed), implementation decision) *)
+   (bracket index, trial, cur_iter, metrics (already signed), implementation decision, is-on_trial_complete);
+   an on_trial_complete event has no decision (the field is ignored) *)
 Definition prio_tbl := list (list vec * list Q).
 Definition vec_eqb := list_eqb xeqb.
 Fixpoint prio_of (tbl : prio_tbl) (X : list vec) : list Q :=
@@ -45,7 +46,7 @@ Fixpoint prio_of (tbl : prio_tbl) (X : list vec) : list Q :=
   | [] => []
   | (k, v) :: r => if list_eqb vec_eqb k X then v else prio_of r X
   end.
-Definition ev := (nat * Z * Q * vec * decision)%type.
+Definition ev := (nat * Z * Q * vec * decision * bool)%type.
 Fixpoint upd {A} (l : list A) (i : nat) (x : A) : list A :=
   match l, i with
   | [], _ => []
@@ -55,7 +56,9 @@ Fixpoint upd {A} (l : list A) (i : nat) (x : A) : list A :=
 Fixpoint run_evs (prio : list vec -> list Q) (rf max_t : Q) (bs : list bracket) (evs : list ev) : bool :=
   match evs with
   | [] => true
-  | (bi, t, it, m, d) :: r =>
+  | (bi, t, it, m, d, true) :: r =>
+      run_evs prio rf max_t (upd bs bi (moasha_on_trial_complete prio rf (nth bi bs []) t it m)) r
+  | (bi, t, it, m, d, false) :: r =>
       let '(b', d') := moasha_on_trial_result prio rf max_t (nth bi bs []) t it m in
       decision_eqb d d' && run_evs prio rf max_t (upd bs bi b') r
   end.
@@ -277,6 +280,7 @@ def gen_moasha_case(rng):
     hugecol = rng.randrange(nmet)
     hugeval = rng.choice([3e17, 2.0 ** 60, 1e300] + ([float("inf")] * 2 if prio in ("nd", "nd1", "ndk", "default") else []))
     stride_mode = rng.choice([0, 0, 3, 9])
+    complete_rate = rng.choice([0, 0.1, 0.25])
     evs = []
     alive = list(range(ntrials))
     for _ in range(rng.randint(5, 60)):
@@ -289,7 +293,16 @@ def gen_moasha_case(rng):
             vals = [hugeval if (k == hugecol and nmet > 1) else 0.1 * rng.randint(0, 5) for k in range(nmet)]
         else:
             vals = [float(rng.randint(0, grid)) if grid < 100 else rng.uniform(0, 1) for _ in range(nmet)]
-        evs.append((t, cursors[t], vals))
+        u = rng.random()
+        if complete_rate and u < complete_rate and cursors[t] < max_t:
+            # the trial finishes on its own: its final result reaches the scheduler through on_trial_complete,
+            # either after on_trial_result saw the same result (what the Tuner does) or as a new result
+            if rng.random() < 0.6:
+                evs.append((t, cursors[t], vals, "result"))
+            evs.append((t, cursors[t], vals, "complete"))
+            alive.remove(t)
+        else:
+            evs.append((t, cursors[t], vals, "result"))
     return dict(metrics=metrics, mode=mode, rf=rf, grace=grace, max_t=max_t, brackets=brackets, prio=prio, max_num_samples=max_num_samples, key_order=key_order,
                 assign={str(k): v for k, v in assign.items()}, evs=evs)
 
@@ -345,9 +358,12 @@ def moasha_sequences(ctx, replay):
         decisions = []
         nontriv = False
         viol = None
+        ncomplete = 0
         sink = io.StringIO()
         rung_sizes = {}
-        for (t, it, vals) in spec["evs"]:
+        for evt in spec["evs"]:
+            t, it, vals = evt[0], evt[1], evt[2]
+            is_complete = len(evt) > 3 and evt[3] == "complete"
             if t in stopped:
                 continue
             bi = spec["assign"][str(t)]
@@ -365,16 +381,23 @@ def moasha_sequences(ctx, replay):
             result = dict(items)
             ncalls = len(rec.calls)
             try:
-                dec = sch.on_trial_result(trial, result)
+                if is_complete:
+                    sch.on_trial_complete(trial, result)
+                    dec = "CONTINUE"   # no decision; placeholder ignored by the model and the checker
+                else:
+                    dec = sch.on_trial_result(trial, result)
             except Exception as e:   # a legal report must be answered, not raise
                 viol = dict(event=[t, it, vals], kind="exception", exception="%s: %s" % (type(e).__name__, str(e)[:200]))
                 break
-            decisions.append(dec)
+            if is_complete:
+                ncomplete += 1
+            else:
+                decisions.append(dec)
             signed = [s * v for s, v in zip(signs, vals)]
             reported_vectors.add(tuple(signed))
             # reference: the report is recorded at the highest rung reached that does not hold the trial yet
             ref_expected = None
-            if it < spec["max_t"]:
+            if it < spec["max_t"] or is_complete:   # on_trial_complete has no max_t test
                 for ms in sorted(ref_rungs[bi].keys(), reverse=True):
                     if it < ms or t in ref_rungs[bi][ms]:
                         continue
@@ -427,17 +450,21 @@ def moasha_sequences(ctx, replay):
                     r = float(np.sum(p < p[-1])) / n
                     must_stop = r > 1 / spec["rf"]
                     must_cont = not must_stop
-                if viol is None and ((must_stop and dec != "STOP") or (must_cont and dec != "CONTINUE")):
+                if viol is None and not is_complete and ((must_stop and dec != "STOP") or (must_cont and dec != "CONTINUE")):
                     viol = dict(event=[t, it, vals], matrix=mat, priorities=pr, decision=dec,
                                 expected="STOP" if must_stop else "CONTINUE")
-            if dec == "STOP":
+            if is_complete:
+                stopped.add(t)     # finished: no further events for this trial
+            elif dec == "STOP":
                 stopped.add(t)
                 sch.on_trial_remove(trial)
-            ev_terms.append("(%s, %s, %s, %s, %s)" % (natlit(bi), zlit(t), q(it), lst([xql(v) for v in signed]), dec))
+            ev_terms.append("(%s, %s, %s, %s, %s, %s)" % (natlit(bi), zlit(t), q(it), lst([xql(v) for v in signed]), dec,
+                                                      blit(is_complete)))
         ctx.count(("moasha", spec), nontrivial=nontriv)
         ctx.h("moasha_prio", spec["prio"])
         ctx.h("moasha_decisions", "STOP", decisions.count("STOP"))
         ctx.h("moasha_decisions", "CONTINUE", decisions.count("CONTINUE"))
+        ctx.h("moasha_on_trial_complete_events", "n", ncomplete)
         if viol is not None and viol.get("kind") == "exception":
             ctx.violation("property", "MOASHA.on_trial_result raised %s for the legal report %s (priority=%s, %d metrics; "
                           "schedulers created earlier in this process must not matter)" % (
